@@ -43,11 +43,18 @@ impl Default for PipeOpts { fn default() -> Self { PipeOpts { const_simplify: tr
 /// The body-level compile pipeline of the stackless languages (mirrors formats/anm/mod.rs compile),
 /// driven on a bare block with a TestLanguage.
 pub fn compile_body(truth: &mut Truth, spec: &LangSpec, hooks: &llir::TestLanguage, text: &str, opts: PipeOpts) -> Result<Compiled, Stage> {
-    truth.apply_mapfile_str(&spec.mapfile_text(), Game::Th10).map_err(|e| { e.ignore(); Stage::Mapfile })?;
+    compile_body_with(truth, &spec.mapfile_text(), Game::Th10, hooks, text, opts)
+}
+
+/// Same, with an explicit mapfile text and game (the language is the hooks' language).
+pub fn compile_body_with(truth: &mut Truth, mapfile: &str, game: Game, hooks: &llir::TestLanguage, text: &str, opts: PipeOpts) -> Result<Compiled, Stage> {
+    let language = hooks.language;
+    truth.apply_mapfile_str(mapfile, game).map_err(|e| { e.ignore(); Stage::Mapfile })?;
+    { let t = truth.validate_defs().map_err(|e| { e.ignore(); Stage::Mapfile })?; let _ = t; }
     let mut block = truth.parse::<ast::Block>("<input>", text.as_bytes()).map_err(|e| { e.ignore(); Stage::Parse })?.value;
     let ctx = truth.ctx();
     use truth::passes;
-    passes::resolution::assign_languages(&mut block, truth::LanguageKey::Anm, ctx).map_err(|e| { e.ignore(); Stage::Languages })?;
+    passes::resolution::assign_languages(&mut block, language, ctx).map_err(|e| { e.ignore(); Stage::Languages })?;
     passes::resolution::compute_diff_label_masks(&mut block, ctx).map_err(|e| { e.ignore(); Stage::Languages })?;
     passes::resolution::resolve_names(&block, ctx).map_err(|e| { e.ignore(); Stage::Resolve })?;
     passes::type_check::run(&block, ctx).map_err(|e| { e.ignore(); Stage::TypeCheck })?;
@@ -58,7 +65,7 @@ pub fn compile_body(truth: &mut Truth, spec: &LangSpec, hooks: &llir::TestLangua
     // as in the ECL pipeline (formats/ecl/ecl_06.rs): difficulty-related validation (switch lengths, warnings)
     passes::validate_difficulty::run(&block, ctx, hooks).map_err(|e| { e.ignore(); Stage::Difficulty })?;
     let structured = block.clone();
-    passes::desugar_blocks::run(&mut block, ctx, truth::LanguageKey::Anm).map_err(|e| { e.ignore(); Stage::Desugar })?;
+    passes::desugar_blocks::run(&mut block, ctx, language).map_err(|e| { e.ignore(); Stage::Desugar })?;
     let flat = block;
     if !opts.lower { return Ok(Compiled { structured, flat, instrs: vec![], info: None }); }
 
